@@ -138,7 +138,9 @@ type binaryObs struct {
 
 func binaryObservers() []binaryObs {
 	out := []binaryObs{
-		{"Cmp", func(x, y dec.Decimal) string { return fmt.Sprint(int(x.Cmp(y)), int(x.CmpAbs(y)), x.Equal(y), dec.Compare(x, y)) }},
+		{"Cmp", func(x, y dec.Decimal) string {
+			return fmt.Sprint(int(x.Cmp(y)), int(x.CmpAbs(y)), x.Equal(y), dec.Compare(x, y))
+		}},
 		{"Min", func(x, y dec.Decimal) string { return dsig(dec.Min(x, y)) }},
 		{"Max", func(x, y dec.Decimal) string { return dsig(dec.Max(x, y)) }},
 		{"Add", func(x, y dec.Decimal) string { return dsig(x.Add(y)) }},
